@@ -57,14 +57,14 @@ LOOK = ['skip_dec', 'skip_body', 'xfail',
         {'s': 'pass', 'w': [['o', 'Traceback (most recent call last):\nError in test fake\n', False]]},
         # bytes that are not UTF-8 on the real fd 2 (a C library, a legacy locale)
         {'s': 'pass', 'w': [['fd2b', 'caf\xe9 \xff\xfe\n', False]]}]
-MODES = {'rep2': ['--repeat', '2'], 'j2rep2': ['-j2', '--repeat', '2'], 'rep3v': ['--repeat', '3', '-v'],
+MODES = {'j20': ['-j20'], 'rep2': ['--repeat', '2'], 'j2rep2': ['-j2', '--repeat', '2'], 'rep3v': ['--repeat', '3', '-v'],
          'seq': [], 'j1': ['-j1'], 'j2': ['-j2'], 'j3': ['-j3'], 'v': ['-v'],
          'j2vv': ['-j2', '-vv'], 't': ['-t', 'q0|q1'], 'lvl': ['--only-level', '1'],
          'j2t': ['-j2', '-t', 'q1|q2']}
 
 
 def _o_filter(case):
-    return case[0] in ('A1B2c', 'N1B2C1') and case[4] in ('seq', 'j2', 'rep2') and not case[5]
+    return case[0] in ('A1B2c', 'N1B2C1') and len(case) == 6 and case[4] in ('seq', 'j2', 'rep2') and not case[5]
 
 
 ENV_PASSES = [{'name': 'python -O', 'argv': ['-O'], 'env': {}, 'filter': _o_filter}]
@@ -124,6 +124,12 @@ def cases(tier, seed):
         for m in ('seq', 'j2', 'v'):
             for with_layer in (False, True):
                 yield ['imp', kind, m, with_layer]
+    # worlds that are not small (12 layers x 40 tests + 30 unit tests): all
+    # quiet outcomes, or exactly one failing test somewhere
+    for bad_at in (None, 0, 29, 30, 269, -1):
+        for nie in (None, 0, 4):
+            for m in ('seq', 'j2', 'j20', 'j2vv'):
+                yield ['big', bad_at, nie, m]
     # the exit status is a yes/no answer, however many things went wrong
     for n in (255, 256, 257, 512):
         yield ['cli_many', n, 'seq']
@@ -279,6 +285,18 @@ def run_imp_case(kind, m, with_layer):
 
 
 def run_case(case):
+    if case[0] == 'big':
+        _, bad_at, nie, m = case
+        spec = ow.big_spec(nie=nie, scripts=['pass', 'pass', 'skip_body', 'xfail', 'skip_dec', 'sub:0,0,2'], bad_at=bad_at)
+        res = runrt.run_world(spec, list(MODES[m]), probe=False)
+        viol = []
+        sig = {'part': 'big', 'mode': m, 'bad': bad_at is not None}
+        if res.escaped:
+            viol.append({'clause': 'run_aborted', 'sig': sig, 'detail': res.escaped_tb})
+        elif bool(res.failed) != (bad_at is not None):
+            viol.append({'clause': 'false_pass' if bad_at is not None else 'false_fail', 'sig': sig,
+                         'detail': '510-test world, failing test at index %r, layer %r cannot be torn down, argv %s: Runner.failed=%r; failures %s errors %s' % (bad_at, nie, MODES[m], res.failed, res.failures, res.errors)})
+        return {'evals': 1, 'nontrivial': 1, 'violations': viol, 'outcome': ('big', bool(res.failed))}
     if case[0] == 'cli_many':
         viol = run_many_case(case[1], case[2])
         return {'evals': 1, 'nontrivial': 1, 'violations': viol, 'outcome': 'cli_many', 'nogate': True,
